@@ -159,7 +159,12 @@ func genC07(tier string, run int, r *simcore.Rand) *harness.Plan {
 		cfg.Corpus = "start" // corpus built incrementally
 	}
 	if r.Bool(0.35) {
-		insert(Op{K: "restart"}, 1)
+		rs := Op{K: "restart"}
+		if r.Bool(0.25) {
+			// the re-open meets a read error in the deleted| rows
+			rs.IterFault = r.Range(1, 3)
+		}
+		insert(rs, 1)
 	}
 	if r.Bool(0.4) {
 		insert(Op{K: "check"}, 1)
@@ -471,6 +476,11 @@ func execC07(rc *harness.RunCtx, p *harness.Plan, cfg *Config, w *world, ops []O
 		out.Inconclusive = "open: " + err.Error()
 		return out
 	}
+	defer func() {
+		for k, v := range s.reach {
+			out.Reached[k] += v
+		}
+	}()
 	q := newQuestions(w, cfg)
 	mode := map[string]string{"": "rows", "op": "scan", "start": "incr"}[cfg.Corpus]
 	restarted := false
@@ -639,7 +649,7 @@ func execC07(rc *harness.RunCtx, p *harness.Plan, cfg *Config, w *world, ops []O
 			c5.atRestart(refs, s.rows())
 			cz.restart()
 			restarted = true
-			if err := s.open(); err != nil {
+			if _, err := s.reopen(ops[i]); err != nil {
 				out.Inconclusive = "restart: " + err.Error()
 				return out
 			}
